@@ -41,16 +41,26 @@ def plan(tier, seed):
 
 def _plan(tier, seed):
     if tier == 'quick':
-        return (shard('history', 200, 8) + shard('rescale', 4, 2) + shard('recipe', 100, 3)
+        return (shard('history', 200, 8) + shard('rescale', 4, 2) + shard('recipe', 100, 3) + fill_pattern_jobs(2)
                 + under_display_configs(shard('history', 30, 2) + shard('rescale', 1, 1) + shard('recipe', 20, 2)))
-    return (shard('history', 5000, 24) + shard('rescale', 40, 4) + shard('recipe', 3000, 12)
+    return (shard('history', 5000, 24) + shard('rescale', 40, 4) + shard('recipe', 3000, 12) + fill_pattern_jobs(4)
             + under_display_configs(shard('history', 500, 8) + shard('rescale', 4, 2) + shard('recipe', 300, 6)))
+
+
+def fill_pattern_jobs(parts):
+    return [{'kind': 'fill_patterns', 'lo': 9000000 + p_, 'hi': 9000000 + p_ + 1, 'timeout': 900, 'params': {'part': p_, 'parts': parts}}
+            for p_ in range(parts)]
+
+
+def fill_patterns(rng, case, idx):
+    from pv.recipes import fill_pattern_cases
+    fill_pattern_cases(rng, case, idx)
 
 
 def run_job(job):
     if job['kind'] == 'repo_suite':
         return run_cases(job, repo_suite)
-    return run_cases(job, {'history': history, 'rescale': rescale, 'recipe': recipe}[job['kind']])
+    return run_cases(job, {'history': history, 'rescale': rescale, 'recipe': recipe, 'fill_patterns': fill_patterns}[job['kind']])
 
 
 def history(rng, case, idx):
